@@ -392,6 +392,32 @@ class Run:
             list(ex.map(solve, chunks))
         return obs, killers
 
+    def pvalidate(self, module, recs, shard, name, cfg="INIT Init\nNEXT Next\nINVARIANT Chk\n", extra_states=0, env_key="VERIF_OBS", timeout=3000):
+        """Validate observation records with a *Check module, `shard` records per TLC run (one worker each), the runs
+        side by side.  Returns [(offset of the shard, parsed PrintT tuple)] for every tuple printed."""
+        import concurrent.futures
+
+        def one(s):
+            part = recs[s:s + shard]
+            path = self.path("obs", "%s-%d.ndjson" % (name, s))
+            write_ndjson(path, part)
+            res = self.tlc(module, cfg, env={env_key: path}, workers=1, name="%s-check%d" % (name, s), timeout=timeout)
+            if res.distinct != len(part) + extra_states:
+                raise MachineryError("%s visited %d of %d records" % (module, res.distinct - extra_states, len(part)))
+            return [(s, p) for p in res.prints if p]
+
+        out = []
+        with concurrent.futures.ThreadPoolExecutor(max_workers=max(1, NCPU // 2)) as ex:
+            for r in ex.map(one, range(0, len(recs), shard)):
+                out += r
+        return out
+
+    def parallel(self, thunks):
+        """run independent generator calls side by side; returns their results in order"""
+        import concurrent.futures
+        with concurrent.futures.ThreadPoolExecutor(max_workers=len(thunks)) as ex:
+            return list(ex.map(lambda f: f(), thunks))
+
     # ------------------------------------------------------- known findings
     def known_findings(self):
         if self._kf is None:
